@@ -11,6 +11,53 @@ from . import _replay_common as rc
 LEVEL = "proof"
 
 
+def mint_identical(ctx):
+    """"Distinct credentials - including ones minted by identical requests in the same second - never cause each other to be
+    reported as replayed": the real enc.c mints k credentials for the SAME request, peer and second (only the PRNG output
+    differs, as in the daemon); the real dec.c must then decode every one of them.  Real primitives, all cipher options incl. none."""
+    from . import _cred_common as cc
+    from . import _cred_checks as K
+    from ..vlib import cbuild
+    h = cc.build_real(ctx)
+    if not h:
+        return
+    r = ctx.rng
+    cases = []
+    for c in (0, 0, 2, 3, 4, 5, 1):
+        for z in (0, 2):
+            base = K.enc_cases(r, 1)[0]
+            base.update(cipher=c, mac=6 if c == 5 else r.choice([2, 3, 5]), zip=z, now=1000000, ttl=300, auth_uid=cc.ANY, auth_gid=cc.ANY, uid=500, gid=600)
+            for k in range(4):
+                e = dict(base); e["rnd"] = bytes(r.randrange(256) for _ in range(24))
+                cases.append(e)
+    ops, res = K.encode_all(h, cases, pre=["cred replay-reset"])
+    dec_ops, owner = [], []
+    for e, rsp in res:
+        if rsp.ok and rsp.kind == "enc" and rsp.error_num == 0:
+            dec_ops.append("cred req %s now=1000001 peer=7:7 mem=-" % cc.hx(cc.dec_req(rsp.data))); owner.append(e)
+    allops = ops + dec_ops
+    rc, out, err = cbuild.run_lines([h], allops)
+    ctx.count(len(allops)); ctx.dist("mint_identical", len(dec_ops))
+    for o in allops:
+        ctx.distinct(o)
+    bad = None
+    if len(dec_ops) != len(cases):
+        bad = (0, "an encode of a valid request failed")
+    for i, l in enumerate(out[len(ops):len(allops)]):
+        rsp, _ = cc.rsp_of(l)
+        if not (rsp.ok and rsp.kind == "dec" and rsp.error_num == 0):
+            bad = bad or (len(ops) + i, "a credential minted by a request identical to an earlier one in the same second was refused on first presentation "
+                          "(error %s): distinct credentials must not shadow each other" % (rsp.error_num if rsp.ok else "none"))
+    crashed = rc != 0 or len(out) != len(allops)
+    ctx.obligation("oracle", "%d credentials minted in groups of 4 by identical requests in one second all decode once (real enc.c/dec.c, PRNG output differs)" % len(dec_ops),
+                   bad is None and not crashed, (bad[1] if bad else "") + (err[-1200:] if crashed else ""))
+    if bad or crashed:
+        i = bad[0] if bad else len(out)
+        # replay: the whole group (identical requests) and the decodes up to the failing one
+        ctx.violation("at-most-once decode: " + (bad[1] if bad else "sanitizer/crash"),
+                      {"stream": "mint-identical", "harness": "h_cred_real", "ops": allops[:i + 1] if i < len(allops) else allops}, found_input=True)
+
+
 def run(ctx):
     ctx.rule = ("op sequences for the real hash.c / replay.c / dec.c and for the Lean model: (1) kernels replay_cmp_f, replay_key_f, "
                 "replay_is_expired, dec_validate_time on boundary lattices; (2) hash.c over integer keys at sizes 1..1213 with a python set as "
@@ -50,6 +97,7 @@ def run(ctx):
         for o in ops[len(ops) // 2: len(ops) // 2 + 2]:
             ctx.sample(o)
         rc.run_stream(ctx, name, ops, h, drv, orc, "at-most-once decode", relevant=rel)
+    mint_identical(ctx)
     # theorem-level failure of the roll-back obligation: the F7 history above is its failing input on the real code
     if any(f.endswith("rollback_implies_inserted") for f in failed):
         if not any(v.get("key") == rc.F7_KEY for v in ctx.violations) and not any(k["key"] == rc.F7_KEY for k in ctx.known_hits):
